@@ -311,3 +311,41 @@ Example linux_cpu_requests_example :
   map (fun r => (q_type r, q_os r, q_cs r)) (linux_cpu_requests (fun _ => true) ex_view) =
     [(HWLOC_OBJ_CORE, 0, bs_of_N 3); (HWLOC_OBJ_PACKAGE, 0, bs_of_N 3); (HWLOC_OBJ_PU, 0, bs_of_N 1); (HWLOC_OBJ_PU, 1, bs_of_N 2)].
 Proof. split; vm_compute; reflexivity. Qed.
+
+(* ---------- insertion by cpuset DURING discovery (Topo/DiscInsertProofs.v; the C02 theorem insert_keeps_order
+   speaks about a loaded, covered topology and about the outcome "inserted" only).  While a backend inserts,
+   nothing is covered yet, the root cpuset only holds the PUs met so far, and many calls end by merging OBJ
+   into an existing object.  [tree_ord]: at every level the sibling cpusets are pairwise disjoint, sorted by
+   first index and included in the parent's; [disc_ord]: the same below a root whose own cpuset is not yet
+   meaningful.  Every traced insertion of every run is evaluated against the hypotheses (executable forms
+   disc_ordb / disc_hypb, proved sound below) and the conclusion is checked on the C tree after the call. ---------- *)
+From HV Require Import Topo.Insert Topo.InsertProofs Topo.DiscInsertProofs.
+
+(* one call, below any object, whatever the outcome (linked, merged into an equal object, replacing a Group)
+   except the put-back failure *)
+Theorem insertion_keeps_order_every_outcome : forall dms dm_new od, wfk od -> nonempty (ApiProofs.dcs od) -> forall cur,
+  tree_ord cur -> defect_free dms dm_new od cur ->
+  forall o cur' out, odata o = od -> InsertProofs.sub (ApiProofs.dcs od) (okey cur) ->
+  insert_by_cpuset dms dm_new cur o = (cur', out) -> out <> OFail ->
+  tree_ord cur' /\ odata cur' = odata cur.
+Proof. exact insert_keeps_ord. Qed.
+Print Assumptions insertion_keeps_order_every_outcome.
+
+(* a whole discovery: any sequence of hwloc__insert_object_by_cpuset(topology, NULL, obj) calls *)
+Theorem discovery_insertions_keep_order : forall root steps root',
+  disc_run root steps root' -> disc_ord root -> disc_ord root' /\ odata root' = odata root.
+Proof. exact discovery_keeps_ord. Qed.
+Print Assumptions discovery_insertions_keep_order.
+
+(* the executable forms used by the tie are sound *)
+Theorem discovery_hypotheses_executable : forall root steps root',
+  disc_ordb root = true -> disc_runb root steps = Some root' -> disc_ord root' /\ odata root' = odata root.
+Proof. exact discovery_runb_keeps_ord. Qed.
+Print Assumptions discovery_hypotheses_executable.
+
+(* Non-vacuity: from the bare root, a container first, PUs descending into it, a Core taking two PUs one level
+   down, PUs out of order, a second Core of the same set merged into the first, a second Package *)
+Example discovery_insertions_example :
+  exists r, disc_runb bare_root example_steps = Some r /\ disc_ord r /\
+            map (fun c => List.length (onch c)) (onch r) = [2; 1]%nat /\ List.length (nflatten r) = 10%nat.
+Proof. exact discovery_example. Qed.
